@@ -125,7 +125,7 @@ func (x *Exec) mapUpdate(st *State, i *ssa.MapUpdate) {
 			}
 		}
 		for _, cl := range x.fc.MapSites {
-			x.assert(st, fmt.Sprintf("site:mapupdate#%d:%s", n, cl.Label), env.evalBool(cl.Expr), cl.Text, i.Pos())
+			x.assertClause(st, fmt.Sprintf("site:mapupdate#%d:%s", n, cl.Label), env, cl.Expr, cl.Text, i.Pos())
 		}
 	}
 	key := x.mapKeyTerm(st.heap, kv, m.Key())
